@@ -145,7 +145,7 @@ def floors(tier):
     cells += [('container', k) for k in ('list', 'list:nested', 'list:str', 'tuple', 'ndarray:f', 'ndarray:i', 'ndarray:U')]
     cells += [('history', r) for r in ROUTES] + [('mutation', m) for m in MUTATIONS] + [('view',), ('container-functions',), ('config', 'attribute'), ('config', 'kwarg'), ('config', 'Config')]
     cells += [('history_rank', r, k) for r in ('np_transpose', 'T', 'flatten', 'ravel', 'm_transpose') for k in (0, 1, 2)]
-    cells += [('view_mutation', vm) for vm in ('resize', 'resize_frac', 'config', 'flag_reset')]
+    cells += [('view_mutation', vm) for vm in ('resize', 'resize_frac', 'config', 'flag_reset')] + [('nested-config',)]
     return cells
 
 
@@ -216,6 +216,10 @@ def run_case(case, ctx):
         T = Fxp(None, True, 20, 6, rounding='around')
         Tsnap = snp(T)
         B = None
+        nested = route in ('ctor_like', 'template', 'deepcopy', 'invert', 'T', 'flatten', 'ravel') and (i // 5) % 3 == 0
+        if nested:
+            # a fixed-point object kept INSIDE the configuration (an output template): it is part of the configuration state that must not be shared
+            A.config.op_out_like = Fxp(None, True, 24, 8, rounding='trunc')
         if route == 'ctor_like':
             B = _try(lambda: Fxp(A.get_val(), like=A))
         elif route == 'template':
@@ -289,6 +293,20 @@ def run_case(case, ctx):
             ctx.violation('derivation_failed', 'route %s produced no object' % route)
             return
         ctx.floor_hit(('history', route))
+        if nested:
+            ta, tb = A.config.op_out_like, B.config.op_out_like
+            if ta is not None and tb is not None:
+                shared = tb is ta or tb.config is ta.config or tb.status is ta.status
+                if not shared:
+                    tb.config.rounding = 'ceil'
+                    shared = ta.config.rounding == 'ceil'
+                if shared:
+                    ctx.violation('not_independent', 'route %s: the fixed-point object kept in the derived object\'s configuration (op_out_like) is shared with the source\'s' % route,
+                                  key='history.%s.nested_config' % route)
+            ctx.judged(('nested-config', route), True, None)
+            ctx.floor_hit(('nested-config',))
+            A.config.op_out_like = None
+            B.config.op_out_like = None
         if route in ('np_transpose', 'T', 'flatten', 'ravel', 'm_transpose'):
             ctx.floor_hit(('history_rank', route, rank))
         for side in ('derived', 'source'):
